@@ -217,6 +217,7 @@ func oracleC07Close(b PbfBlock, k int, procs int) {
 	}
 	b.Ways, b.Rels = nil, nil
 	b.ShortStrings, b.ExtraColumn, b.PlainNodes, b.ShortRawSize = false, false, false, false // an intact file: no decoding error gets recorded
+	b.CutStrings = 0
 	for i := 0; i < 80; i++ {
 		f.Blocks = append(f.Blocks, b)
 	}
